@@ -180,6 +180,11 @@ TARGETED = [
     "see the long explanation at http://bare.url/some/longer/path/that/wraps  \nnext line here\n",
     "- item with http://bare.url/x  \n  more text\n- second www.example.com/p  \n  tail\n",
     "> quoted https://e.com/a  \n> more\n",
+    # a literal backslash directly before a hard break (three backslashes, then the newline), and a Windows path at a soft break
+    "the path is C:\\\\\\\nnext line here\n",
+    "- item ends in a literal backslash \\\\\\\n  and continues\n",
+    # titles whose own text starts / ends with brackets
+    "see [spec](/spec.html \"(draft)\") and ![img](i.png \"(c) ACME (tm)\") here\n\n[r]: /url \"(paren title)\"\n\n[r]\n",
     # headings directly followed by other blocks
     "# Heading\n| a | b |\n|---|---|\n| 1 | 2 |\n\nparagraph after the table\n",
     "## Heading\n- item\n- item two\n\nparagraph after the list\n",
